@@ -15,7 +15,10 @@
 //! file (and the directories that contain them, inside the temp HOME), `/dev/null`, `/proc/self/…`.
 //! K: the traced write set (and the reads under the temp HOME) as tags vs the Lean effect model's
 //! prediction for the same scenario (`eff`), and `file_dict_name` vs the model on hostile paths
-//! (`fdn`). The dependency closure from `/repo/Cargo.lock` and a source scan for socket APIs are
+//! (`fdn`); w24: the directories `create_dir_all` really makes — the real `save_dict` in a sandbox
+//! (`mkd`, file system before/after), the successful `mkdir` calls of the traced path scenarios
+//! (`effmk`), and `save_dict("/")` under strace (`sde`: `Path::parent()` of the root is `None`, no
+//! `mkdir`). The dependency closure from `/repo/Cargo.lock` and a source scan for socket APIs are
 //! lookups, reported in `extra` and labelled as such.
 use crate::common::*;
 use crate::dictionary_io::file_dict_name;
@@ -145,6 +148,19 @@ pub fn child(args: &[String]) {
                 Err(e) => out["error"] = json!(e.to_string()),
             }
             out["docs"] = json!([a, r, m]);
+        }
+        "savedict" => {
+            // `save_dict` on the root path (no parent: no mkdir; creating `/` fails) and on a file one
+            // level below the existing HOME (exactly one mkdir)
+            let rt = tokio::runtime::Builder::new_current_thread().enable_all().build().unwrap();
+            let mut dict = harper_core::MutableDictionary::new();
+            dict.append_word_str("zqword", harper_core::WordMetadata::default());
+            let sub = tmp.join("home").join("sub").join("x.txt");
+            let r0 = rt.block_on(crate::dictionary_io::save_dict("/", dict.clone()));
+            let r1 = rt.block_on(crate::dictionary_io::save_dict(&sub, dict.clone()));
+            out["root_is_err"] = json!(r0.is_err());
+            out["sub_is_ok"] = json!(r1.is_ok());
+            out["targets"] = json!(["/", sub]);
         }
         sc if sc.starts_with("paths-") => {
             // HOME = <tmp>/home (set above), the current directory = <tmp>/cwd (set by the parent)
@@ -560,6 +576,19 @@ fn fdn_case(sess: &mut Session, url_text: &str, origin: &str) {
         && !name.contains('/')
         && name != ".."
         && name != ".";
+    // the name is ONE NORMAL component, or empty — and empty exactly for the root path (w24)
+    let n_normal = path.components().filter(|c| !matches!(c, Component::RootDir)).count();
+    if name.is_empty() {
+        sess.count("fdn:empty-name");
+    }
+    if !(name.is_empty() || name.ends_with('%')) || name.is_empty() != (n_normal == 0) {
+        sess.fail(
+            "fdn-not-a-normal-component",
+            format!("file_dict_name({}) = {:?}: neither empty-for-the-root-path nor a name ending in %", url_text, name),
+            json!({"url": url_text}),
+            Some(case),
+        );
+    }
     if !inside {
         sess.fail("fdn-escapes", format!("file_dict_name({}) = {:?}: the join leaves the dictionary directory ({:?})", url_text, name, joined), json!({"url": url_text}), Some(case));
     }
@@ -956,7 +985,7 @@ fn binary_scenarios(sess: &mut Session, out_abs: &Path) -> Value {
 // configured path strings → the paths that are written
 // ------------------------------------------------------------------------------------------
 
-const PATH_SCENARIOS: [&str; 4] = ["paths-tilde", "paths-tilde-stats", "paths-relative", "paths-absolute"];
+const PATH_SCENARIOS: [&str; 5] = ["paths-tilde", "paths-tilde-stats", "paths-relative", "paths-absolute", "paths-deep"];
 
 /// the three path keys a client answers `workspace/configuration` with, per scenario
 fn paths_config(scenario: &str, tmp: &Path) -> Value {
@@ -966,6 +995,8 @@ fn paths_config(scenario: &str, tmp: &Path) -> Value {
         // the `statsPath` key sets the file-dictionary directory and overrides `fileDictPath`
         "paths-tilde-stats" => json!({"userDictPath": "~/t2/d.txt", "fileDictPath": "~/t2/fd-overridden", "statsPath": "~//t2/./sp"}),
         "paths-relative" => json!({"userDictPath": "rel/ud.txt", "fileDictPath": "./rel/fd", "statsPath": "../cwd-sibling/sp"}),
+        // w24: several MISSING ancestors above each configured location (`create_dir_all` makes them all)
+        "paths-deep" => json!({"userDictPath": "~/deep/u1/u2/ud.txt", "fileDictPath": "deep2/./f1//f2/fd"}),
         _ => json!({"userDictPath": abs("u.txt"), "fileDictPath": abs("fd-overridden"), "statsPath": abs("sp")}),
     }
 }
@@ -1196,6 +1227,7 @@ fn path_scenario(sess: &mut Session, out_abs: &Path, scenario: &str) -> Value {
     // ---- observed
     let own: Vec<String> = vec![norm(&doc), parent(&norm(&doc)), norm(&home_s)];
     let mut eff: BTreeSet<String> = BTreeSet::new();
+    let mut made: BTreeSet<String> = BTreeSet::new(); // directories really created (mkdir = 0), ancestors included
     let mut bad: Vec<(String, String)> = vec![];
     let calls = parse_trace(&text);
     let absolutize = |p: &str| if p.starts_with('/') { norm(p) } else { norm(&format!("{}/{}", cwd_s, p)) };
@@ -1226,6 +1258,9 @@ fn path_scenario(sess: &mut Session, out_abs: &Path, scenario: &str) -> Value {
                 let p = absolutize(&path);
                 if own.contains(&p) {
                     continue;
+                }
+                if c.ret.trim() == "0" {
+                    made.insert(p.clone());
                 }
                 if want_dirs.contains(&p) {
                     eff.insert(format!("m:{}", p));
@@ -1258,12 +1293,286 @@ fn path_scenario(sess: &mut Session, out_abs: &Path, scenario: &str) -> Value {
     let case = sess.k(&op, &imp);
     sess.nontrivial(&op);
     sess.o();
+    // ---- K (w24): every directory the server really made (ancestors included) vs `dirsCreated`
+    //      on a file system where HOME, the current directory and the document's directory exist
+    let existing = [home_s.clone(), cwd_s.clone(), parent(&norm(&doc))].iter().map(|x| cps_sp(x)).collect::<Vec<_>>().join(" ; ");
+    let op_mk = format!("effmk {} | {} | stdio | upd 0 {d} | addu 1 0 {d} | addf 1 0 {d} | shutdown", cfg_groups(&home_s, &cwd_s, &xc, &xd, &u, &f, &st), existing, d = d);
+    let imp_mk = format!("ok {}", made.iter().map(|x| cps(x)).collect::<BTreeSet<_>>().into_iter().collect::<Vec<_>>().join(" ")).trim_end().to_string();
+    sess.k(&op_mk, &imp_mk);
+    sess.count("effmk-cases");
+    sess.add("effmk-directories-created", made.len() as u64);
+    sess.add("effmk-ancestors-created-outside-the-configured-directories", made.iter().filter(|m| !want_dirs.contains(m)).count() as u64);
     let input = json!({"scenario": scenario, "config": cfg, "home": home_s, "cwd": cwd_s});
     for (class, desc) in &bad {
         sess.fail(class, format!("scenario {}: {}", scenario, desc), input.clone(), Some(case));
     }
-    json!({"config": cfg, "home": home_s, "cwd": cwd_s, "expected_writes": want_files, "expected_mkdirs": want_dirs, "effects_observed": eff,
+    json!({"config": cfg, "home": home_s, "cwd": cwd_s, "expected_writes": want_files, "expected_mkdirs": want_dirs, "effects_observed": eff, "directories_created": made,
            "violations": bad.iter().map(|b| b.1.clone()).collect::<Vec<_>>(), "syscalls_traced": calls.len()})
+}
+
+// ------------------------------------------------------------------------------------------
+// w24: what `create_dir_all` creates — the real `save_dict` in a sandbox (`mkd`), `save_dict("/")`
+// under strace (`sde`)
+// ------------------------------------------------------------------------------------------
+
+/// how far above its starting directory a relative target climbs (`..` beyond what it has descended)
+fn max_climb(target: &str) -> usize {
+    let (mut depth, mut min) = (0i64, 0i64);
+    for c in target.split('/') {
+        match c {
+            "" | "." => {}
+            ".." => {
+                depth -= 1;
+                min = min.min(depth);
+            }
+            _ => depth += 1,
+        }
+    }
+    (-min) as usize
+}
+
+fn list_tree(root: &Path) -> (BTreeSet<String>, BTreeSet<String>) {
+    let (mut dirs, mut files) = (BTreeSet::new(), BTreeSet::new());
+    let mut stack = vec![root.to_path_buf()];
+    while let Some(d) = stack.pop() {
+        let Ok(rd) = std::fs::read_dir(&d) else { continue };
+        for e in rd.flatten() {
+            let p = e.path();
+            if p.is_dir() {
+                dirs.insert(p.to_string_lossy().to_string());
+                stack.push(p);
+            } else {
+                files.insert(p.to_string_lossy().to_string());
+            }
+        }
+    }
+    (dirs, files)
+}
+
+/// One `save_dict(R/<target>, dict)` on a fresh sandbox directory `R` (as many levels below the case
+/// directory as the target climbs with `..`, so that nothing can leave the case directory) in which
+/// exactly the directories `pre` (relative to `R`) exist. (No per-case clean-up: `rmdir` is the slow
+/// operation on the work file system; the whole sandbox is removed once, in the background.) Observed: the
+/// directories that exist afterwards and did not before. K: `mkd`. O: every new entry is a prefix
+/// of the target's directory (a directory) or the target itself (the file).
+fn mkd_case(sess: &mut Session, rt: &tokio::runtime::Runtime, base: &Path, n: usize, pre: &[String], target: &str, origin: &str) {
+    sess.count(&format!("mkd-origin:{}", origin));
+    let case_dir = base.join(format!("{}", n));
+    let mut r = case_dir.clone();
+    for i in 0..max_climb(target) {
+        r = r.join(format!("u{}", i));
+    }
+    std::fs::create_dir_all(&r).unwrap();
+    for p in pre {
+        std::fs::create_dir_all(r.join(p)).unwrap();
+    }
+    let r_s = r.to_string_lossy().to_string();
+    let full = format!("{}/{}", r_s, target);
+    let (dirs0, files0) = list_tree(&case_dir);
+    let mut dict = harper_core::MutableDictionary::new();
+    dict.append_word_str("zqword", harper_core::WordMetadata::default());
+    let res = guarded(|| rt.block_on(crate::dictionary_io::save_dict(&full, dict)));
+    let (dirs1, files1) = list_tree(&case_dir);
+    let new_dirs: BTreeSet<String> = dirs1.difference(&dirs0).cloned().collect();
+    let new_files: BTreeSet<String> = files1.difference(&files0).cloned().collect();
+    let existing: Vec<String> = std::iter::once(r_s.clone()).chain(pre.iter().map(|p| format!("{}/{}", r_s, p))).map(|x| cps_sp(&x)).collect();
+    let op = format!("mkd {} | {}", existing.join(" ; "), cps_sp(&full));
+    let imp = match &res {
+        Err(_) => "panic".to_string(),
+        Ok(_) => format!("ok {}", new_dirs.iter().map(|x| cps(x)).collect::<BTreeSet<_>>().into_iter().collect::<Vec<_>>().join(" ")).trim_end().to_string(),
+    };
+    let case = sess.k(&op, &imp);
+    if !new_dirs.is_empty() {
+        sess.nontrivial(&op);
+    }
+    sess.add("mkd-directories-created", new_dirs.len() as u64);
+    match &res {
+        Ok(Ok(())) => sess.count("mkd:saved"),
+        Ok(Err(_)) => sess.count("mkd:save_dict-returned-an-error"),
+        Err(_) => sess.count("mkd:panic"),
+    }
+    // O: nothing appears anywhere but on the way down to the target
+    let tgt = norm(&full);
+    let tgt_dir = Path::new(&full).parent().map(|x| norm(&x.to_string_lossy())).unwrap_or_default();
+    let input = json!({"mkd": {"pre": pre, "target": target}});
+    for d in &new_dirs {
+        // the un-normalised prefixes of the target's directory, each `..`-resolved
+        let mut ok = false;
+        let mut acc = PathBuf::from("/");
+        for c in Path::new(&full).parent().unwrap_or(Path::new("/")).components() {
+            acc.push(c.as_os_str());
+            if norm(&acc.to_string_lossy()) == *d {
+                ok = true;
+            }
+        }
+        if !ok {
+            sess.fail("c10-write-outside", format!("save_dict({:?}) made the directory {} — not on the way to {}", full, d, tgt_dir), input.clone(), Some(case));
+        }
+    }
+    for f in &new_files {
+        if *f != tgt {
+            sess.fail("c10-write-outside", format!("save_dict({:?}) created the file {} — not the target {}", full, f, tgt), input.clone(), Some(case));
+        }
+    }
+    sess.o();
+}
+
+/// returns the thread that removes the sandbox (join it before the run ends)
+fn mkd_streams(sess: &mut Session, rng: &mut Rng, out_abs: &Path, thorough: bool) -> std::thread::JoinHandle<()> {
+    let base = out_abs.join("c10-mk");
+    let _ = std::fs::remove_dir_all(&base);
+    std::fs::create_dir_all(&base).unwrap();
+    let rt = tokio::runtime::Builder::new_current_thread().enable_all().build().unwrap();
+    let mut n = 0usize;
+    let mut one = |sess: &mut Session, pre: &[&str], target: &str, origin: &str| {
+        n += 1;
+        let pre: Vec<String> = pre.iter().map(|x| x.to_string()).collect();
+        mkd_case(sess, &rt, &base, n, &pre, target, origin);
+    };
+    // corpus: the shapes the theorems name
+    for (pre, t) in [
+        (vec![], "d.txt"),
+        (vec![], "a/d.txt"),
+        (vec![], "a/b/c/d.txt"),
+        (vec!["a"], "a/b/c/d.txt"),
+        (vec!["a/b/c"], "a/b/c/d.txt"),
+        (vec![], "a/../b/d.txt"),       // `a` is made although the file ends up in `b`
+        (vec![], "a/b/../../c/d.txt"),
+        (vec![], "../x/d.txt"),
+        (vec![], "a/./b//c/d.txt"),
+        (vec![], "fd/"),                // `dir.join("")`: the name of the root document; parent is R, nothing made, create fails
+        (vec![], "a/fd/"),
+        (vec!["a/fd"], "a/fd/"),
+        (vec![], "a/b/."),
+        (vec![], "a/b/.."),
+        (vec![], ""),
+        (vec![], "é ü/😀/d.txt"),
+    ] {
+        one(sess, &pre, t, "corpus");
+    }
+    // exhaustive small scope: targets of 0..=3 (thorough: 0..=4) components over {a, b, .., .} × four initial file systems
+    let alpha = ["a", "b", "..", "."];
+    let pres: [Vec<&str>; 4] = [vec![], vec!["a"], vec!["a/b"], vec!["b/a"]];
+    for len in 0..=(if thorough { 4usize } else { 3usize }) {
+        let total = alpha.len().pow(len as u32);
+        for code in 0..total {
+            let mut c = code;
+            let mut parts = vec![];
+            for _ in 0..len {
+                parts.push(alpha[c % alpha.len()]);
+                c /= alpha.len();
+            }
+            let t = parts.join("/");
+            for pre in &pres {
+                one(sess, pre, &t, "exhaustive");
+            }
+        }
+    }
+    // structured random: longer targets, empty components, trailing slashes, non-ASCII names, random initial directories
+    let frags = ["a", "b", "c", "..", ".", "", "x.txt", "ü", "a b"];
+    let nrand = if thorough { 3000 } else { 300 };
+    for _ in 0..nrand {
+        let k = rng.range(1, 7);
+        let mut parts: Vec<&str> = (0..k).map(|_| frags[rng.below(frags.len())]).collect();
+        if rng.chance(1, 8) {
+            parts.push("");
+        }
+        let t = parts.join("/");
+        let mut pre: Vec<String> = vec![];
+        for _ in 0..rng.below(3) {
+            let d = rng.range(1, 4);
+            pre.push((0..d).map(|_| ["a", "b", "c", "ü"][rng.below(4)]).collect::<Vec<_>>().join("/"));
+        }
+        let pre_refs: Vec<&str> = pre.iter().map(|x| x.as_str()).collect();
+        one(sess, &pre_refs, &t, "random");
+    }
+    std::thread::spawn(move || {
+        let _ = std::fs::remove_dir_all(&base);
+    })
+}
+
+/// `save_dict("/")` and `save_dict(<HOME>/sub/x.txt)` in a traced child: the mkdir ATTEMPTS and the
+/// files opened for writing, per target, vs `sde` (the root path has no parent: no mkdir at all).
+fn savedict_scenario(sess: &mut Session, out_abs: &Path) -> Value {
+    let tmp = out_abs.join("c10-savedict");
+    let _ = std::fs::remove_dir_all(&tmp);
+    std::fs::create_dir_all(&tmp).unwrap();
+    let trace_file = out_abs.join("c10-savedict.strace");
+    let _ = std::fs::remove_file(&trace_file);
+    let exe = std::env::current_exe().unwrap();
+    let output = std::process::Command::new("strace")
+        .args(["-f", "-qq", "-e", &format!("trace={}", TRACE_SET), "-s", "4096", "-o"])
+        .arg(&trace_file)
+        .arg(&exe)
+        .args(["C10-child", "savedict"])
+        .arg(&tmp)
+        .output();
+    let (ok, stdout) = match &output {
+        Ok(o) => (o.status.success(), String::from_utf8_lossy(&o.stdout).to_string()),
+        Err(_) => (false, String::new()),
+    };
+    let child: Value = stdout.lines().find_map(|l| l.strip_prefix("C10-CHILD ")).and_then(|j| serde_json::from_str(j).ok()).unwrap_or(json!({}));
+    let text = std::fs::read_to_string(&trace_file).unwrap_or_default();
+    let traced_ok = ok && !text.is_empty() && child.get("error").is_none() && child.get("scenario").is_some();
+    sess.monitor("strace could trace the child process and the scenario ran to its end", traced_ok);
+    if !traced_ok {
+        return json!({"error": "child did not run under strace", "child": child});
+    }
+    sess.monitor("save_dict(\"/\") fails (the root is a directory) and save_dict(<HOME>/sub/x.txt) succeeds", child["root_is_err"] == json!(true) && child["sub_is_ok"] == json!(true));
+    let home = norm(&tmp.join("home").to_string_lossy());
+    let sub = norm(&tmp.join("home").join("sub").join("x.txt").to_string_lossy());
+    let calls = parse_trace(&text);
+    let mut root_eff: BTreeSet<String> = BTreeSet::new();
+    let mut sub_eff: BTreeSet<String> = BTreeSet::new();
+    let mut bad: Vec<String> = vec![];
+    for c in &calls {
+        match c.name.as_str() {
+            "openat" | "open" | "creat" => {
+                let Some(path) = quoted(&c.args).into_iter().next() else { continue };
+                let p = norm(&path);
+                let writing = c.name == "creat" || ["O_WRONLY", "O_RDWR", "O_CREAT", "O_TRUNC", "O_APPEND"].iter().any(|f| c.args.contains(f));
+                if !writing || p == "/dev/null" || p.starts_with("/proc/self/") {
+                    continue;
+                }
+                if p == "/" {
+                    root_eff.insert(format!("c:{}", cps(&p)));
+                } else if p == sub {
+                    sub_eff.insert(format!("c:{}", cps(&p)));
+                } else {
+                    bad.push(format!("write outside the target: {}({}) = {}", c.name, c.args, c.ret));
+                }
+            }
+            "mkdir" | "mkdirat" => {
+                let Some(path) = quoted(&c.args).into_iter().next() else { continue };
+                let p = norm(&path);
+                if p == home {
+                    continue; // set_home, the harness's own
+                }
+                if p == "/" {
+                    root_eff.insert(format!("m:{}", cps(&p)));
+                } else if Path::new(&sub).starts_with(&p) {
+                    sub_eff.insert(format!("m:{}", cps(&p)));
+                } else {
+                    bad.push(format!("mkdir outside the target's directory: {}({}) = {}", c.name, c.args, c.ret));
+                }
+            }
+            "rename" | "renameat" | "renameat2" | "unlink" | "unlinkat" | "rmdir" | "link" | "linkat" | "symlink" | "symlinkat" | "truncate" | "chmod" | "fchmodat" => {
+                bad.push(format!("file-modifying call the model does not have: {}({}) = {}", c.name, c.args, c.ret));
+            }
+            _ => {}
+        }
+    }
+    let show = |e: &BTreeSet<String>| format!("ok {}", e.iter().cloned().collect::<Vec<_>>().join(" ")).trim_end().to_string();
+    let case = sess.k("sde 47", &show(&root_eff));
+    sess.k(&format!("sde {}", cps_sp(&sub)), &show(&sub_eff));
+    sess.count("sde-cases");
+    sess.count("sde-cases");
+    sess.nontrivial("sde-root");
+    sess.o();
+    for b in &bad {
+        sess.fail("c10-write-outside", format!("scenario savedict: {}", b), json!({"scenario": "savedict"}), Some(case));
+    }
+    json!({"root_path_effects": root_eff, "one_level_effects": sub_eff, "violations": bad, "syscalls_traced": calls.len(), "child": child})
 }
 
 fn strace_available() -> bool {
@@ -1287,9 +1596,18 @@ pub fn run(ctx: &Ctx) {
             fdn_case(&mut sess, u, "replay");
         } else if v.get("cfgp").is_some() {
             cfgp_grid(&mut sess, &out_abs, Some(&v["cfgp"]));
+        } else if v.get("mkd").is_some() {
+            let base = out_abs.join("c10-mk-replay");
+            let rt = tokio::runtime::Builder::new_current_thread().enable_all().build().unwrap();
+            let pre: Vec<String> = v["mkd"]["pre"].as_array().map(|a| a.iter().filter_map(|x| x.as_str().map(|y| y.to_string())).collect()).unwrap_or_default();
+            let _ = std::fs::remove_dir_all(&base);
+            mkd_case(&mut sess, &rt, &base, 0, &pre, v["mkd"]["target"].as_str().unwrap_or(""), "replay");
+            let _ = std::fs::remove_dir_all(&base);
         } else if let Some(sc) = v["scenario"].as_str() {
             if PATH_SCENARIOS.contains(&sc) && strace_available() {
                 extra.insert(sc.to_string(), path_scenario(&mut sess, &out_abs, sc));
+            } else if sc == "savedict" && strace_available() {
+                extra.insert(sc.to_string(), savedict_scenario(&mut sess, &out_abs));
             }
         }
         sess.nontrivial("replay-a");
@@ -1301,9 +1619,11 @@ pub fn run(ctx: &Ctx) {
     //         failing SCENARIO is the replay the verdict driver names) -----------------------------
     let mut path_reports: Vec<(String, Value)> = vec![];
     if strace_available() {
+        let t_ps = std::time::Instant::now();
         for sc in PATH_SCENARIOS {
             path_reports.push((sc.to_string(), path_scenario(&mut sess, &out_abs, sc)));
         }
+        extra.insert("path_scenarios_seconds".into(), json!((t_ps.elapsed().as_secs_f64() * 100.0).round() / 100.0));
     }
 
     // ---- 1. file_dict_name vs the model ----------------------------------------------------------
@@ -1327,6 +1647,16 @@ pub fn run(ctx: &Ctx) {
     // ---- 1b. configured path strings vs the model ------------------------------------------------
     cfgp_grid(&mut sess, &out_abs, None);
 
+    // ---- 1c. what create_dir_all creates: the real save_dict in a sandbox vs the model (w24) ----------
+    let t_mk = std::time::Instant::now();
+    let mk_cleanup = mkd_streams(&mut sess, &mut rng, &out_abs, ctx.tier == Tier::Thorough);
+    extra.insert("mkd_seconds".into(), json!((t_mk.elapsed().as_secs_f64() * 100.0).round() / 100.0));
+    if strace_available() {
+        let t_sd = std::time::Instant::now();
+        path_reports.push(("savedict".to_string(), savedict_scenario(&mut sess, &out_abs)));
+        extra.insert("savedict_seconds".into(), json!((t_sd.elapsed().as_secs_f64() * 100.0).round() / 100.0));
+    }
+
     // ---- 2. lookups ------------------------------------------------------------------------------
     extra.insert("dependency_closure_lookup".into(), dependency_closure());
     let scan = source_scan();
@@ -1337,6 +1667,7 @@ pub fn run(ctx: &Ctx) {
     if !strace_available() {
         extra.insert("trace".into(), json!("trace unavailable: `strace -V` does not run on this machine; the syscall comparison was skipped, only file_dict_name and the lookups were checked"));
         sess.count("trace-unavailable");
+        let _ = mk_cleanup.join();
         sess.finish(
             "file_dict_name vs the model on hostile and random file URLs; syscall tracing UNAVAILABLE (strace missing)",
             false,
@@ -1457,8 +1788,11 @@ pub fn run(ctx: &Ctx) {
         extra.insert("harper_ls_executable".into(), json!("not built yet (the thorough tier builds it into harness/target/lsbin); the in-process server scenario above is the trace that was compared"));
     }
     extra.insert("trace".into(), json!(format!("strace -f -qq -e trace={}", TRACE_SET)));
+    let t_join = std::time::Instant::now();
+    let _ = mk_cleanup.join();
+    extra.insert("mkd_cleanup_wait_seconds".into(), json!((t_join.elapsed().as_secs_f64() * 100.0).round() / 100.0));
     sess.finish(
-        "file_dict_name vs the model on a hostile-URL corpus (.., %2F, %2E, NUL, invalid UTF-8, astral, 5000-char, non-file URLs) and random URLs over 28 fragments; Config::from_lsp_config vs the model on the full grid of 20 values (absent, non-string, null, 17 path strings: ~, ~/x, ~/, ~//x/./y, ~/../z, ~user/x, relative, ./x, ../x, absolute, empty, …) for each of userDictPath × fileDictPath × statsPath with HOME and the current directory two different temp dirs, plus XDG_CONFIG_HOME / XDG_DATA_HOME variations; four traced server sessions whose configuration answers carry tilde / relative / absolute paths (add-to-user-dict, add-to-file-dict, shutdown) whose write set must equal the resolved configured paths; three scenarios (library pipeline over 11 languages, harper_wasm::Linter natively, in-process language server session ending in shutdown/save_stats) each in a child process under strace: traced write set + reads under the temp HOME vs the effect model's prediction, and no network-family syscall at all. Non-trivial = a file_dict_name result of ≥2 characters or a traced scenario.",
+        "file_dict_name vs the model on a hostile-URL corpus (.., %2F, %2E, NUL, invalid UTF-8, astral, 5000-char, non-file URLs) and random URLs over 28 fragments; Config::from_lsp_config vs the model on the full grid of 20 values (absent, non-string, null, 17 path strings: ~, ~/x, ~/, ~//x/./y, ~/../z, ~user/x, relative, ./x, ../x, absolute, empty, …) for each of userDictPath × fileDictPath × statsPath with HOME and the current directory two different temp dirs, plus XDG_CONFIG_HOME / XDG_DATA_HOME variations; four traced server sessions whose configuration answers carry tilde / relative / absolute paths (add-to-user-dict, add-to-file-dict, shutdown) whose write set must equal the resolved configured paths, and whose successful mkdir calls — ancestors included — must equal the model's dirsCreated (a fifth session has three missing ancestors above each configured location); the real save_dict in a sandbox on every target of ≤ 3 (thorough: ≤ 4) components over {a, b, .., .} × four initial file systems, a corpus and random longer targets: the directories that exist afterwards vs the model, and nothing created off the way to the target; save_dict(\"/\") under strace (no mkdir at all); three scenarios (library pipeline over 11 languages, harper_wasm::Linter natively, in-process language server session ending in shutdown/save_stats) each in a child process under strace: traced write set + reads under the temp HOME vs the effect model's prediction, and no network-family syscall at all. Non-trivial = a file_dict_name result of ≥2 characters or a traced scenario.",
         false,
         Value::Object(extra),
     );
